@@ -43,7 +43,7 @@ class Source:
 
 class C14(Prop):
     id = 'C14'
-    quick_cases = 2000
+    quick_cases = 4000
     thorough_cases = 100000
     rule = ('random scripts of ~40 start/stop/speed/assign/read operations on the real SimulatedClock whose time source '
             '(sismic.clock.clock.time) is replaced by a scripted one returning exact ints / Fractions (non-decreasing '
@@ -273,6 +273,14 @@ statechart:
         sync = SynchronizedClock(it)
         last = 0
         t = 0
+        during = []
+
+        def watcher(event):
+            # while a step is under way — from 'step started' on — the step under way is the last step
+            if sync.time != t:
+                during.append('while %r was announced the SynchronizedClock showed %r; the step was called at %r'
+                              % (event.name, sync.time, t))
+        it.attach(watcher)
         for k in range(rnd.randint(4, 14)):
             c = rnd.random()
             if c < 0.3:
@@ -289,6 +297,9 @@ statechart:
                 # (a call that executes nothing still samples the clock: it is a step boundary too)
                 last = t
                 what = 'execute_once()'
+            if during:
+                res.violations.append('op %d of the followed interpreter: %s' % (k, during[0]))
+                return
             if sync.time != last or SynchronizedClock(it).time != last:
                 res.violations.append('after %s (op %d of the followed interpreter) the SynchronizedClock shows %r / a fresh one %r; '
                                       'the last step was at %r' % (what, k, sync.time, SynchronizedClock(it).time, last))
